@@ -131,6 +131,8 @@ def callee_from_clauses(name, params, requires, ensures, results, ghosts=None, r
                     res.append(core.alloc(st, 2, core.fresh('res_' + name, core.A2I), shp, core.INT))
                 elif kind == 'int':
                     res.append(core.fresh('res_' + name, core.INT))
+                elif kind == 'real':
+                    res.append(core.fresh('res_' + name, core.REAL))
                 else:
                     raise ContractError('result kind %s' % kind)
             st.ghost['_result'] = core.TupleV(res) if len(res) != 1 else res[0]
@@ -138,6 +140,7 @@ def callee_from_clauses(name, params, requires, ensures, results, ghosts=None, r
                 if kind != 'mat':
                     raise ContractError('rebind kind %s' % kind)
                 st.env[nm] = core.alloc(st, 2, core.fresh('loc_%s_%s' % (name, nm), core.A2R), tuple(eng.ev_str(d, st) for d in dims), core.REAL)
+                st.ghost['%s__%s' % (name, nm)] = st.env[nm]       # the caller's ghost code may name the callee's local (lemma instances about it)
             for cname, src in ensures:
                 st.pc.append(core.truth(eng.ev_str(src, st)))
             return core.TupleV(res) if len(res) != 1 else res[0]
